@@ -25,6 +25,15 @@ CLAIMED = {
              'String-level lexing of the serialised items is checked by the extracted lexer on real output, not yet proved.',
         technique='Coq proof (induction over token trees; reflective side conditions on regenerated escape data) + extracted-model correspondence',
         design='5/C08'),
+    'C17': dict(
+        text='Theorems over ALL token trees about a Gallina model of LaTeXRenderer: template braces and \\begin/\\end pairs properly nested, every text '
+             'item a sequence of ordinary characters and escape sequences (declarative predicate Esc), every \\href/\\url argument safe, \\verb delimiter '
+             'absent from its content; escape table, URL chain/safe set, hole fillers and delimiters regenerated from latex_renderer.py each run and checked '
+             'by reflective side conditions; extracted model vs real renderer on parsed and loaded trees and every code point.',
+        note='Trusted: Coq kernel, extraction, translator gen_latex.py, hand-written structural model (correspondence-checked), check_latex string oracle. '
+             'Verbatim/math regions set aside. Two known findings (image src, code language written raw) are excluded by the hypothesis kf_free and have a refutation lemma.',
+        technique='Coq proof (induction over token trees; reflective side conditions on regenerated escape data) + extracted-model correspondence',
+        design='5/C17'),
 }
 
 NOT_YET = {}
